@@ -63,3 +63,535 @@ Proof.
     by (symmetry; apply Z.leb_le; lia).
   apply sop_naive_spec; auto.
 Qed.
+
+
+Local Ltac unf := unfold u64, W64 in *.
+
+
+
+(* ---------- interleaved sum_of_products ---------- *)
+Definition zsum (l : list Z) : Z := fold_right Z.add 0 l.
+Definition Xj (j : nat) (ab : list (list Z * list Z)) : Z :=
+  zsum (map (fun p => nth j (fst p) 0 * val (snd p)) ab).
+Definition Dn (i : nat) (ab : list (list Z * list Z)) : Z :=
+  zsum (map (fun p => val (firstn i (fst p)) * val (snd p)) ab).
+Definition okpair (m : list Z) (p : list Z * list Z) : Prop := elem_ok m (fst p) /\ elem_ok m (snd p).
+
+Lemma wf_nth a j : wf a -> u64 (nth j a 0).
+Proof.
+  intros Ha. destruct (Nat.lt_ge_cases j (length a)) as [Hlt|Hge].
+  - unfold wf in Ha. rewrite Forall_forall in Ha. apply Ha. apply nth_In; auto.
+  - rewrite nth_overflow by auto. apply u64_0.
+Qed.
+
+Lemma Xj_nonneg m j ab : Forall (okpair m) ab -> 0 <= Xj j ab.
+Proof.
+  induction ab as [|p ab IH]; intros H; cbn [Xj zsum map fold_right]; [lia|].
+  inversion H as [|p' ab' Hp Hab]; subst. specialize (IH Hab). unfold Xj, zsum in IH.
+  destruct Hp as [(Haw & _ & _) (Hbw & _ & _)].
+  pose proof (wf_nth (fst p) j Haw) as Hx. pose proof (val_bound (snd p) Hbw). unfold u64 in Hx. nia.
+Qed.
+
+Lemma Xj_bound m j ab : Forall (okpair m) ab ->
+  Xj j ab <= Z.of_nat (length ab) * ((W64 - 1) * val m).
+Proof.
+  induction ab as [|p ab IH]; intros H; cbn [Xj zsum map fold_right length]; [lia|].
+  inversion H as [|p' ab' Hp Hab]; subst. specialize (IH Hab). unfold Xj, zsum in IH.
+  destruct Hp as [(Haw & _ & _) (Hbw & _ & Hblt)].
+  pose proof (wf_nth (fst p) j Haw) as Hx. pose proof (val_bound (snd p) Hbw). unfold u64 in Hx.
+  rewrite Nat2Z.inj_succ. nia.
+Qed.
+
+Definition step_ab (j : nat) (st : list Z * Z * Z) (p : list Z * list Z) : list Z * Z * Z :=
+  let '(res, ca, cb) := st in
+  let '(row, c2) := mac_row res (nth j (fst p) 0) (snd p) 0 in
+  let '(ca', cb') := adc ca cb c2 in (row, ca', cb').
+
+Definition step_single (j : nat) (st : list Z * Z) (p : list Z * list Z) : list Z * Z :=
+  let '(tmp, carry) := st in
+  let '(row, c2) := mac_row tmp (nth j (fst p) 0) (snd p) 0 in
+  (row, adc_no_carry carry 0 c2).
+
+Section Inner.
+  Variable m : list Z.
+  Let N := length m.
+  Variable j : nat.
+
+  Lemma inner_ab_spec : forall ab res ca, wf res -> length res = N -> u64 ca ->
+    Forall (okpair m) ab -> val res + Wn N * ca + Xj j ab < Wn N * W64 ->
+    exists res' ca', fold_left (step_ab j) ab (res, ca, 0) = (res', ca', 0) /\
+      wf res' /\ length res' = N /\ u64 ca' /\
+      val res' + Wn N * ca' = val res + Wn N * ca + Xj j ab.
+  Proof.
+    induction ab as [|p ab IH]; intros res ca Hres Hl Hca Hab Hb.
+    - exists res, ca. cbn [fold_left Xj zsum map fold_right]. repeat split; auto; try apply Hca. lia.
+    - inversion Hab as [|p' ab' Hp Hab']; subst p' ab'.
+      pose proof (Xj_nonneg m j ab Hab') as Hnn.
+      destruct Hp as [(Haw & Hal & Halt) (Hbw & Hbl & Hblt)].
+      cbn [fold_left]. unfold step_ab at 2.
+      pose proof (wf_nth (fst p) j Haw) as Hx.
+      pose proof (mac_row_spec (snd p) res (nth j (fst p) 0) 0 Hbw Hres ltac:(unfold N in Hl; lia) Hx u64_0) as H.
+      destruct (mac_row res (nth j (fst p) 0) (snd p) 0) as [row c2]. destruct H as (Hrw & Hrl & Hc2 & Hreq).
+      rewrite Hbl in Hreq. fold N in Hreq.
+      change (Xj j (p :: ab)) with (nth j (fst p) 0 * val (snd p) + Xj j ab) in Hb.
+      pose proof (val_bound row Hrw) as Hrb. pose proof (Wn_pos N) as HW.
+      assert (Hsum : ca + c2 < W64) by (unfold u64 in *; nia).
+      rewrite adc_spec by (auto using u64_0).
+      rewrite Z.add_0_r. rewrite (Z.mod_small (ca + c2)) by (unfold u64 in *; lia).
+      rewrite (Z.div_small (ca + c2)) by (unfold u64 in *; lia).
+      destruct (IH row (ca + c2) Hrw ltac:(unfold N; lia) ltac:(unfold u64 in *; lia) Hab' ltac:(nia))
+        as (res' & ca' & Hf & Hw' & Hl' & Hca' & Heq').
+      exists res', ca'. split; [exact Hf|]. repeat split; auto; try apply Hca'.
+      change (Xj j (p :: ab)) with (nth j (fst p) 0 * val (snd p) + Xj j ab). nia.
+  Qed.
+
+  Lemma inner_single_spec : forall ab res ca, wf res -> length res = N -> u64 ca ->
+    Forall (okpair m) ab -> val res + Wn N * ca + Xj j ab < Wn N * W64 ->
+    exists res' ca', fold_left (step_single j) ab (res, ca) = (res', ca') /\
+      wf res' /\ length res' = N /\ u64 ca' /\
+      val res' + Wn N * ca' = val res + Wn N * ca + Xj j ab.
+  Proof.
+    induction ab as [|p ab IH]; intros res ca Hres Hl Hca Hab Hb.
+    - exists res, ca. cbn [fold_left Xj zsum map fold_right]. repeat split; auto; try apply Hca. lia.
+    - inversion Hab as [|p' ab' Hp Hab']; subst p' ab'.
+      pose proof (Xj_nonneg m j ab Hab') as Hnn.
+      destruct Hp as [(Haw & Hal & Halt) (Hbw & Hbl & Hblt)].
+      cbn [fold_left]. unfold step_single at 2.
+      pose proof (wf_nth (fst p) j Haw) as Hx.
+      pose proof (mac_row_spec (snd p) res (nth j (fst p) 0) 0 Hbw Hres ltac:(unfold N in Hl; lia) Hx u64_0) as H.
+      destruct (mac_row res (nth j (fst p) 0) (snd p) 0) as [row c2]. destruct H as (Hrw & Hrl & Hc2 & Hreq).
+      rewrite Hbl in Hreq. fold N in Hreq.
+      change (Xj j (p :: ab)) with (nth j (fst p) 0 * val (snd p) + Xj j ab) in Hb.
+      pose proof (val_bound row Hrw) as Hrb. pose proof (Wn_pos N) as HW.
+      assert (Hsum : ca + c2 < W64) by (unfold u64 in *; nia).
+      rewrite adc_no_carry_spec by (auto using u64_0).
+      rewrite Z.add_0_r. rewrite (Z.mod_small (ca + c2)) by (unfold u64 in *; lia).
+      destruct (IH row (ca + c2) Hrw ltac:(unfold N; lia) ltac:(unfold u64 in *; lia) Hab' ltac:(nia))
+        as (res' & ca' & Hf & Hw' & Hl' & Hca' & Heq').
+      exists res', ca'. split; [exact Hf|]. repeat split; auto; try apply Hca'.
+      change (Xj j (p :: ab)) with (nth j (fst p) 0 * val (snd p) + Xj j ab). nia.
+  Qed.
+End Inner.
+
+
+
+Section SopRow.
+  Variables (m0 inv : Z) (m' : list Z).
+  Hypothesis Hkill : forall x, (x + ((x * inv) mod W64) * m0) mod W64 = 0.
+  Let m := m0 :: m'.
+  Hypothesis Hm : wf m.
+  Let N := length m.
+
+  Lemma sop_red_spec : forall t, wf t -> length t = N ->
+    let '(low, c2) := sop_red m inv t in
+    exists k, u64 k /\ wf low /\ length low = length m' /\ u64 c2 /\
+      W64 * (val low + Wn (length m') * c2) = val t + k * val m.
+  Proof.
+    intros [|t0 t'] Ht Hl; [unfold N, m in Hl; discriminate|].
+    pose proof Hm as Hm2. unfold m in Hm2. apply wf_cons in Hm2 as [Hm0 Hm'].
+    apply wf_cons in Ht as [Ht0 Ht']. unfold N, m in Hl. cbn [length] in Hl.
+    unfold sop_red, m. set (k := (t0 * inv) mod W64). assert (Hk : u64 k) by apply mod_u64.
+    rewrite mac_discard_spec by auto.
+    assert (Hc : u64 ((t0 + k * m0) / W64)).
+    { replace (t0 + k * m0) with (t0 + k * m0 + 0) by ring. apply mac_carry_u64; auto using u64_0. }
+    pose proof (mac_row_spec m' t' k _ Hm' Ht' ltac:(lia) Hk Hc) as H.
+    destruct (mac_row t' k m' _) as [low c2]. destruct H as (Hw & Hlen & Hc2 & Heq).
+    exists k. repeat split; auto; try apply Hk; try apply Hc2.
+    assert (Hlow : (t0 + k * m0) mod W64 = 0) by (unfold k; apply Hkill).
+    pose proof (divmod_eq (t0 + k * m0)) as E. rewrite Hlow in E. cbn [val]. nia.
+  Qed.
+
+  (* common tail of both row variants: reduction row + top limb = carry word + carry2 *)
+  Lemma sop_row_tail : forall res1 ca T X B, wf res1 -> length res1 = N -> u64 ca ->
+    val res1 + Wn N * ca = T + X -> 0 <= T < B -> B <= Wn N ->
+    T + X + (W64 - 1) * val m < B * W64 ->
+    let '(low, c2) := sop_red m inv res1 in
+    let r' := low ++ [adc_no_carry ca 0 c2] in
+    wf r' /\ length r' = N /\ val r' < B /\
+    exists k, 0 <= k < W64 /\ W64 * val r' = T + X + k * val m.
+  Proof.
+    intros res1 ca T X B Hres Hl Hca Heq HT HB Hbound.
+    pose proof (sop_red_spec res1 Hres Hl) as H.
+    destruct (sop_red m inv res1) as [low c2]. destruct H as (k & Hk & Hlw & Hll & Hc2 & He).
+    cbn zeta. rewrite adc_no_carry_spec by (auto using u64_0). rewrite Z.add_0_r.
+    assert (HN : Wn N = W64 * Wn (length m')) by (unfold N, m; cbn [length]; apply Wn_S).
+    pose proof (val_bound low Hlw) as Hlb. rewrite Hll in Hlb. pose proof (Wn_pos (length m')) as HW.
+    pose proof (val_bound m Hm) as Hmb.
+    (* T' = val low + Wn(N-1) * (ca + c2) *)
+    assert (HT' : W64 * (val low + Wn (length m') * (ca + c2)) = T + X + k * val m) by nia.
+    assert (HltB : val low + Wn (length m') * (ca + c2) < B) by (unfold u64 in Hk; nia).
+    assert (Hsum : ca + c2 < W64) by (unfold u64 in *; nia).
+    rewrite (Z.mod_small (ca + c2)) by (unfold u64 in *; lia).
+    repeat split.
+    - apply wf_app. split; auto. constructor; [unfold u64 in *; lia | constructor].
+    - rewrite app_length. cbn [length]. unfold N, m. cbn [length]. lia.
+    - rewrite val_snoc, Hll. exact HltB.
+    - exists k. split; [exact Hk|]. rewrite val_snoc, Hll. exact HT'.
+  Qed.
+
+  Variable ab : list (list Z * list Z).
+  Hypothesis Hab : Forall (okpair m) ab.
+  Let M := Z.of_nat (length ab).
+  Let B := (M + 1) * val m.
+  Hypothesis HB : B <= Wn N.
+
+  Lemma row_bounds : forall T j, 0 <= T < B ->
+    T + Xj j ab < Wn N * W64 /\ T + Xj j ab + (W64 - 1) * val m < B * W64.
+  Proof.
+    intros T j HT. pose proof (Xj_bound m j ab Hab) as Hx. fold M in Hx.
+    pose proof (val_bound m Hm) as Hmb. assert (0 <= M) by (unfold M; lia).
+    assert (HW : 1 < W64) by reflexivity.
+    split; unfold B in *; nia.
+  Qed.
+
+  Lemma sop_row_ab_spec : forall result j, wf result -> length result = N -> val result < B ->
+    let r' := sop_row_ab m inv ab result j in
+    wf r' /\ length r' = N /\ val r' < B /\
+    exists k, 0 <= k < W64 /\ W64 * val r' = val result + Xj j ab + k * val m.
+  Proof.
+    intros result j Hr Hl Hlt. cbn zeta. unfold sop_row_ab.
+    pose proof (val_bound result Hr) as Hrb.
+    destruct (row_bounds (val result) j ltac:(lia)) as [Hb1 Hb2].
+    change (fold_left _ ab (result, 0, 0)) with (fold_left (step_ab j) ab (result, 0, 0)).
+    destruct (inner_ab_spec m j ab result 0 Hr Hl u64_0 Hab ltac:(fold N; lia))
+      as (res1 & ca & Hf & Hw1 & Hl1 & Hca & Heq).
+    rewrite Hf. fold N in Heq. rewrite Z.mul_0_r, Z.add_0_r in Heq.
+    pose proof (sop_row_tail res1 ca (val result) (Xj j ab) B Hw1 Hl1 Hca Heq ltac:(lia) HB Hb2) as H.
+    destruct (sop_red m inv res1) as [low c2]. exact H.
+  Qed.
+
+  Lemma sop_row_single_spec : forall result j, wf result -> length result = N -> val result < B ->
+    let r' := sop_row_single m inv ab result j in
+    wf r' /\ length r' = N /\ val r' < B /\
+    exists k, 0 <= k < W64 /\ W64 * val r' = val result + Xj j ab + k * val m.
+  Proof.
+    intros result j Hr Hl Hlt. cbn zeta. unfold sop_row_single.
+    pose proof (val_bound result Hr) as Hrb.
+    destruct (row_bounds (val result) j ltac:(lia)) as [Hb1 Hb2].
+    change (fold_left _ ab (result, 0)) with (fold_left (step_single j) ab (result, 0)).
+    destruct (inner_single_spec m j ab result 0 Hr Hl u64_0 Hab ltac:(fold N; lia))
+      as (res1 & ca & Hf & Hw1 & Hl1 & Hca & Heq).
+    rewrite Hf. fold N in Heq. rewrite Z.mul_0_r, Z.add_0_r in Heq.
+    pose proof (sop_row_tail res1 ca (val result) (Xj j ab) B Hw1 Hl1 Hca Heq ltac:(lia) HB Hb2) as H.
+    destruct (sop_red m inv res1) as [low c2]. exact H.
+  Qed.
+End SopRow.
+
+
+
+Lemma val_firstn_S a i : (i < length a)%nat ->
+  val (firstn (S i) a) = val (firstn i a) + Wn i * nth i a 0.
+Proof.
+  revert i. induction a as [|x a IH]; intros i Hi; [cbn [length] in Hi; lia|].
+  destruct i as [|i].
+  - cbn [firstn val nth]. rewrite Wn_0. lia.
+  - cbn [length] in Hi. change (firstn (S (S i)) (x :: a)) with (x :: firstn (S i) a).
+    change (firstn (S i) (x :: a)) with (x :: firstn i a). cbn [val nth].
+    rewrite IH by lia. rewrite Wn_S. ring.
+Qed.
+
+Lemma Dn_S m i ab : Forall (okpair m) ab -> (i < length m)%nat ->
+  Dn (S i) ab = Dn i ab + Wn i * Xj i ab.
+Proof.
+  intros Hab Hi. induction ab as [|p ab IH]; cbn [Dn Xj zsum map fold_right]; [lia|].
+  inversion Hab as [|p' ab' Hp Hab']; subst. specialize (IH Hab'). unfold Dn, Xj, zsum in IH.
+  destruct Hp as [(Haw & Hal & _) _]. rewrite val_firstn_S by lia. rewrite IH. ring.
+Qed.
+
+Lemma Dn_0 ab : Dn 0 ab = 0.
+Proof.
+  unfold Dn. induction ab as [|p ab IH]; [reflexivity|].
+  cbn [map zsum fold_right]. unfold zsum in IH. rewrite IH. reflexivity.
+Qed.
+
+Lemma Dn_full m ab : Forall (okpair m) ab ->
+  Dn (length m) ab = zsum (map (fun p => val (fst p) * val (snd p)) ab).
+Proof.
+  intros Hab. induction ab as [|p ab IH]; [reflexivity|].
+  inversion Hab as [|p' ab' Hp Hab']; subst. specialize (IH Hab').
+  cbn [Dn zsum map fold_right] in *. unfold Dn, zsum in IH. rewrite IH.
+  destruct Hp as [(Haw & Hal & _) _]. rewrite <- Hal, firstn_all. reflexivity.
+Qed.
+
+Lemma Dn_full_bound m ab : Forall (okpair m) ab ->
+  0 <= zsum (map (fun p => val (fst p) * val (snd p)) ab) <= Z.of_nat (length ab) * (val m * val m).
+Proof.
+  intros Hab. induction ab as [|p ab IH]; cbn [zsum map fold_right length]; [lia|].
+  inversion Hab as [|p' ab' Hp Hab']; subst. specialize (IH Hab'). unfold zsum in IH.
+  destruct Hp as [(Haw & _ & Halt) (Hbw & _ & Hblt)].
+  pose proof (val_bound (fst p) Haw). pose proof (val_bound (snd p) Hbw).
+  rewrite Nat2Z.inj_succ. nia.
+Qed.
+
+Section SopOuter.
+  Variables (m : list Z) (ab : list (list Z * list Z)).
+  Hypothesis Hm : wf m.
+  Hypothesis Hodd : val m mod 2 = 1.
+  Hypothesis Hab : Forall (okpair m) ab.
+  Let N := length m.
+  Let M := Z.of_nat (length ab).
+  Let B := (M + 1) * val m.
+  Hypothesis HB : B <= Wn N.
+
+  (* any row function with the row specification *)
+  Variable row : list Z -> nat -> list Z.
+  Hypothesis row_spec : forall result j, wf result -> length result = N -> val result < B ->
+    let r' := row result j in
+    wf r' /\ length r' = N /\ val r' < B /\
+    exists k, 0 <= k < W64 /\ W64 * val r' = val result + Xj j ab + k * val m.
+
+  Lemma sop_outer_spec : forall n s r, (s + n <= N)%nat -> wf r -> length r = N -> val r < B ->
+    forall K, 0 <= K < Wn s -> Wn s * val r = Dn s ab + K * val m ->
+    let r' := fold_left row (seq s n) r in
+    wf r' /\ length r' = N /\ val r' < B /\
+    exists K', 0 <= K' < Wn (s + n) /\ Wn (s + n) * val r' = Dn (s + n) ab + K' * val m.
+  Proof.
+    induction n as [|n IH]; intros s r Hsn Hr Hl Hlt K HK HE; cbn zeta.
+    - cbn [seq fold_left]. rewrite Nat.add_0_r. repeat split; auto. exists K. auto.
+    - cbn [seq fold_left].
+      destruct (row_spec r s Hr Hl Hlt) as (Hw1 & Hl1 & Hlt1 & k & Hk & He1). cbn zeta in *.
+      replace (s + S n)%nat with (S s + n)%nat by lia.
+      apply (IH (S s) (row r s) ltac:(lia) Hw1 Hl1 Hlt1 (K + Wn s * k)).
+      + rewrite Wn_S. pose proof (Wn_pos s). nia.
+      + rewrite Wn_S, (Dn_S m s ab Hab ltac:(unfold N in Hsn; lia)).
+        replace (W64 * Wn s * val (row r s)) with (Wn s * (W64 * val (row r s))) by ring.
+        rewrite He1. nia.
+  Qed.
+
+  Lemma sop_fold_final :
+    let t := fold_left row (seq 0 N) (zeros N) in
+    let r := subtract_modulus m t in
+    elem_ok m r /\
+    (val r * Wn N) mod val m = zsum (map (fun p => val (fst p) * val (snd p)) ab) mod val m.
+  Proof.
+    cbn zeta. pose proof (odd_pos m Hm Hodd) as Hp. assert (HM : 0 <= M) by (unfold M; lia).
+    destruct (sop_outer_spec N 0 (zeros N) ltac:(lia) (wf_zeros _) (length_zeros _)
+                ltac:(rewrite val_zeros; unfold B; nia) 0 ltac:(rewrite Wn_0; lia)
+                ltac:(rewrite val_zeros, Dn_0; ring))
+      as (Hw & Hl & Hlt & K & HK & HE).
+    cbn zeta in *. cbn [Nat.add] in *. set (t := fold_left row (seq 0 N) (zeros N)) in *.
+    unfold N in HE. rewrite (Dn_full m ab Hab) in HE. fold N in HE.
+    pose proof (Dn_full_bound m ab Hab) as HD. fold M in HD.
+    set (D := zsum (map (fun p => val (fst p) * val (snd p)) ab)) in *.
+    pose proof (val_bound t Hw) as Htb. pose proof (Wn_pos N) as HW.
+    assert (Ht2 : val t < 2 * val m).
+    { assert (D <= Wn N * val m) by (unfold B in HB; nia).
+      assert (K * val m < Wn N * val m) by nia. nia. }
+    destruct (subtract_modulus_spec m t Hm Hw Hl Ht2) as (Hrw & Hrl & Hrlt & Hrv).
+    cbn zeta in *. split; [repeat split; auto|].
+    fold N. destruct Hrv as [Hrv|Hrv]; rewrite Hrv.
+    - rewrite Z.mul_comm, HE. apply Z.mod_add. lia.
+    - replace ((val t - val m) * Wn N) with (Wn N * val t + (- Wn N) * val m) by ring.
+      rewrite Z.mod_add by lia. rewrite HE. apply Z.mod_add. lia.
+  Qed.
+End SopOuter.
+
+
+Definition Dstd (m : list Z) (ab : list (list Z * list Z)) : Z :=
+  zsum (map (fun p => std m (fst p) * std m (snd p)) ab).
+
+Lemma dot_shift m ab : forall s, dot m ab s = s + Dstd m ab.
+Proof.
+  unfold dot, Dstd. induction ab as [|p ab IH]; intros s; cbn [fold_left map zsum fold_right]; [lia|].
+  rewrite IH. unfold zsum. lia.
+Qed.
+
+Lemma prod_sum_std m ab : wf m -> val m mod 2 = 1 -> Forall (okpair m) ab ->
+  zsum (map (fun p => val (fst p) * val (snd p)) ab) mod val m =
+  (Dstd m ab * (Wn (length m) * Wn (length m))) mod val m.
+Proof.
+  intros Hm Hodd Hab. pose proof (odd_pos m Hm Hodd) as Hp.
+  induction ab as [|p ab IH]; [reflexivity|].
+  inversion Hab as [|p' ab' Hp' Hab']; subst. specialize (IH Hab').
+  destruct Hp' as [(Haw & Hal & Halt) (Hbw & Hbl & Hblt)].
+  destruct (std_val m Hm Hodd (fst p) Haw Hal Halt) as [_ Ea].
+  destruct (std_val m Hm Hodd (snd p) Hbw Hbl Hblt) as [_ Eb].
+  unfold Dstd in *. cbn [map zsum fold_right] in *. fold (zsum (map (fun p0 => val (fst p0) * val (snd p0)) ab)).
+  fold (zsum (map (fun p0 => std m (fst p0) * std m (snd p0)) ab)).
+  rewrite Zplus_mod, IH. rewrite Ea at 1. rewrite Eb at 1. rewrite <- Zmult_mod, <- Zplus_mod.
+  f_equal. ring.
+Qed.
+
+Section Final.
+  Variables (m : list Z) (ab : list (list Z * list Z)).
+  Hypothesis Hm : wf m.
+  Hypothesis Hodd : val m mod 2 = 1.
+  Hypothesis Hab : Forall (okpair m) ab.
+  Hypothesis HB : (Z.of_nat (length ab) + 1) * val m <= Wn (length m).
+
+  Lemma std_of_sum r : elem_ok m r ->
+    (val r * Wn (length m)) mod val m = zsum (map (fun p => val (fst p) * val (snd p)) ab) mod val m ->
+    std m r = dot m ab 0 mod val m.
+  Proof.
+    intros (Hrw & Hrl & Hrlt) Hc. pose proof (odd_pos m Hm Hodd) as Hp.
+    rewrite dot_shift, Z.add_0_l. pose proof (val_bound r Hrw).
+    apply std_unique; auto.
+    apply (mont_cancel m); auto; try lia.
+    - apply Z.mod_pos_bound; lia.
+    - rewrite Hc, prod_sum_std by auto. rewrite Zmult_mod_idemp_l. f_equal. ring.
+  Qed.
+
+End Final.
+
+Theorem sop_interleaved_ab_spec : forall m ab, wf m -> val m mod 2 = 1 -> Forall (okpair m) ab ->
+  (Z.of_nat (length ab) + 1) * val m <= Wn (length m) ->
+  let r := sop_interleaved_ab m ab in elem_ok m r /\ std m r = dot m ab 0 mod val m.
+Proof.
+  intros m ab Hm Hodd Hab HB. cbn zeta.
+  pose proof (odd_nonempty m Hodd) as Hne. destruct m as [|m0 m']; [congruence|].
+  pose proof (inv_of_kills m0 m' Hm Hodd) as Hkill.
+  unfold sop_interleaved_ab.
+  pose proof (sop_fold_final (m0 :: m') ab Hm Hodd Hab HB (sop_row_ab (m0 :: m') (inv_of (m0 :: m')) ab)
+                (sop_row_ab_spec m0 (inv_of (m0 :: m')) m' Hkill Hm ab Hab HB)) as H.
+  cbn zeta in H. destruct H as [Hok Hc].
+  split; [exact Hok|]. apply std_of_sum; auto.
+Qed.
+
+Theorem sop_interleaved_single_spec : forall m ab, wf m -> val m mod 2 = 1 -> Forall (okpair m) ab ->
+  (Z.of_nat (length ab) + 1) * val m <= Wn (length m) ->
+  let r := sop_interleaved_single m ab in elem_ok m r /\ std m r = dot m ab 0 mod val m.
+Proof.
+  intros m ab Hm Hodd Hab HB. cbn zeta.
+  pose proof (odd_nonempty m Hodd) as Hne. destruct m as [|m0 m']; [congruence|].
+  pose proof (inv_of_kills m0 m' Hm Hodd) as Hkill.
+  unfold sop_interleaved_single.
+  pose proof (sop_fold_final (m0 :: m') ab Hm Hodd Hab HB (sop_row_single (m0 :: m') (inv_of (m0 :: m')) ab)
+                (sop_row_single_spec m0 (inv_of (m0 :: m')) m' Hkill Hm ab Hab HB)) as H.
+  cbn zeta in H. destruct H as [Hok Hc].
+  split; [exact Hok|]. apply std_of_sum; auto.
+Qed.
+
+
+
+(* ---------- bit size of the modulus and the chunk bound ---------- *)
+Lemma bitlen_upper x : 0 <= x -> x < 2 ^ bitlen x.
+Proof.
+  intros Hx. unfold bitlen. destruct (Z.eqb_spec x 0) as [->|Hne]; [reflexivity|].
+  pose proof (Z.log2_spec x ltac:(lia)) as [_ H]. rewrite <- Z.add_1_r in H. exact H.
+Qed.
+
+Lemma bitlen_nonneg x : 0 <= bitlen x.
+Proof. unfold bitlen. destruct (x =? 0); [lia|]. pose proof (Z.log2_nonneg x). lia. Qed.
+
+Lemma const_num_bits_upper m : wf m -> m <> [] -> val m < 2 ^ const_num_bits m.
+Proof.
+  intros Hm Hne. destruct (wf_removelast m Hm Hne) as [Hl Ht].
+  unfold const_num_bits. rewrite (val_split_last m Hne).
+  rewrite (length_removelast_S m Hne).
+  replace (Z.of_nat (S (length (removelast m))) - 1) with (Z.of_nat (length (removelast m))) by lia.
+  pose proof (bitlen_upper (last m 0) ltac:(unfold u64 in Ht; lia)) as Hb.
+  pose proof (bitlen_nonneg (last m 0)) as Hbn.
+  rewrite Z.pow_add_r by lia.
+  replace (Z.of_nat (length (removelast m)) * 64) with (64 * Z.of_nat (length (removelast m))) by lia.
+  rewrite <- Wn_pow2.
+  pose proof (val_bound _ Hl). pose proof (Wn_pos (length (removelast m))). nia.
+Qed.
+
+Lemma two_s_le_pow s : 1 <= s -> 2 * s <= 2 ^ s.
+Proof.
+  intros Hs. pose proof (Z.pow_gt_lin_r 2 (s - 1) ltac:(lia) ltac:(lia)) as H.
+  replace s with (Z.succ (s - 1)) at 2 by lia. rewrite Z.pow_succ_r by lia. lia.
+Qed.
+
+Lemma chunk_bound m (M : nat) : wf m -> m <> [] ->
+  const_num_bits m < 64 * Z.of_nat (length m) - 1 ->
+  (M <= Z.to_nat (2 * (Z.of_nat (length m) * 64 - const_num_bits m) - 1))%nat ->
+  (Z.of_nat M + 1) * val m <= Wn (length m).
+Proof.
+  intros Hm Hne Hbits HM. pose proof (const_num_bits_upper m Hm Hne) as Hup.
+  set (bits := const_num_bits m) in *. set (s := Z.of_nat (length m) * 64 - bits) in *.
+  assert (Hs : 2 <= s) by (unfold s; lia).
+  assert (HM' : Z.of_nat M + 1 <= 2 * s) by lia.
+  pose proof (two_s_le_pow s ltac:(lia)) as H2.
+  pose proof (val_bound m Hm) as Hmb.
+  assert (Hbn : 0 <= bits).
+  { unfold bits, const_num_bits. pose proof (bitlen_nonneg (last m 0)).
+    destruct m; [congruence|]. cbn [length]. lia. }
+  rewrite Wn_pow2. replace (64 * Z.of_nat (length m)) with (s + bits) by (unfold s; lia).
+  rewrite Z.pow_add_r by lia.
+  assert (0 < 2 ^ bits) by (apply Z.pow_pos_nonneg; lia). nia.
+Qed.
+
+(* ---------- chunks ---------- *)
+Lemma chunks_of_spec {A} : forall fuel k (l : list A), (1 <= k)%nat -> (length l < fuel)%nat ->
+  concat (chunks_of fuel k l) = l /\
+  Forall (fun c => (length c <= k)%nat /\ incl c l) (chunks_of fuel k l).
+Proof.
+  induction fuel as [|fuel IH]; intros k l Hk Hl; [lia|].
+  destruct l as [|x l']; [split; [reflexivity | constructor]|].
+  cbn [chunks_of].
+  assert (Hsk : (length (skipn k (x :: l')) < fuel)%nat).
+  { rewrite skipn_length. cbn [length] in *. lia. }
+  destruct (IH k (skipn k (x :: l')) Hk Hsk) as [Hc Hf].
+  split.
+  - cbn [concat]. rewrite Hc. apply firstn_skipn.
+  - constructor.
+    + split; [rewrite firstn_length; lia|]. intros y Hy. rewrite <- (firstn_skipn k (x :: l')). apply in_or_app; auto.
+    + eapply Forall_impl; [|exact Hf]. cbn beta. intros c [Hcl Hci]. split; auto.
+      intros y Hy. rewrite <- (firstn_skipn k (x :: l')). apply in_or_app. right. apply Hci; auto.
+Qed.
+
+Lemma dot_app m l1 l2 s : dot m (l1 ++ l2) s = dot m l2 (dot m l1 s).
+Proof. unfold dot. apply fold_left_app. Qed.
+
+Lemma Forall_incl {A} (P : A -> Prop) l c : Forall P l -> incl c l -> Forall P c.
+Proof. intros H Hi. rewrite Forall_forall in *. auto. Qed.
+
+(* summing per-chunk results with add_assign *)
+Lemma sum_chunks_spec : forall m (f : list (list Z * list Z) -> list Z), wf m -> val m mod 2 = 1 ->
+  forall cs acc s,
+  Forall (fun c => elem_ok m (f c) /\ std m (f c) = dot m c 0 mod val m) cs ->
+  elem_ok m acc -> std m acc = s mod val m ->
+  let r := fold_left (add_assign m) (map f cs) acc in
+  elem_ok m r /\ std m r = dot m (concat cs) s mod val m.
+Proof.
+  intros m f Hm Hodd. pose proof (odd_nonempty m Hodd) as Hne.
+  induction cs as [|c cs IH]; intros acc s Hcs Hacc Hs; cbn zeta.
+  - cbn [map fold_left concat dot]. auto.
+  - inversion Hcs as [|c' cs' [Hok Hstd] Hcs']; subst c' cs'.
+    cbn [map fold_left concat]. rewrite dot_app.
+    destruct Hacc as (Haw & Hal & Halt). destruct Hok as (Hfw & Hfl & Hflt).
+    destruct (add_assign_spec m acc (f c) Hm Hne Haw Hfw Hal Hfl Halt Hflt) as (Hsw & Hsl & Hslt & _).
+    cbn zeta in *. apply IH; auto.
+    + repeat split; auto.
+    + rewrite std_add by auto. rewrite Hs, Hstd. rewrite <- Zplus_mod.
+      rewrite (dot_shift m c s), (dot_shift m c 0). f_equal; ring.
+Qed.
+
+(* ---------- sum_of_products, every branch, both flavours ---------- *)
+Theorem sum_of_products_spec : forall (derived : bool) m ab, wf m -> val m mod 2 = 1 ->
+  Forall (okpair m) ab ->
+  let r := sum_of_products derived m ab in
+  elem_ok m r /\ std m r = dot m ab 0 mod val m.
+Proof.
+  intros derived m ab Hm Hodd Hab. cbn zeta.
+  pose proof (odd_nonempty m Hodd) as Hne. pose proof (odd_pos m Hm Hodd) as Hp.
+  unfold sum_of_products.
+  destruct (Z.leb_spec (64 * Z.of_nat (length m) - 1) (const_num_bits m)) as [Hfb|Hbits].
+  { apply sop_naive_spec; auto. }
+  set (chunk := Z.to_nat (2 * (Z.of_nat (length m) * 64 - const_num_bits m) - 1)).
+  assert (Hck : (3 <= chunk)%nat) by (unfold chunk; lia).
+  assert (Hz : elem_ok m (zeros (length m))).
+  { repeat split; auto using wf_zeros, length_zeros. rewrite val_zeros. lia. }
+  assert (Hz0 : std m (zeros (length m)) = 0 mod val m).
+  { rewrite std_zeros by auto. symmetry. apply Z.mod_0_l. lia. }
+  destruct (chunks_of_spec (S (length ab)) chunk ab ltac:(lia) ltac:(lia)) as [Hcat Hchunks].
+  destruct derived.
+  - destruct (Nat.leb_spec (length ab) chunk) as [Hle|Hgt].
+    + apply sop_interleaved_ab_spec; auto. apply chunk_bound; auto.
+    + replace (dot m ab 0) with (dot m (concat (chunks_of (S (length ab)) chunk ab)) 0) by (rewrite Hcat; reflexivity).
+      apply (sum_chunks_spec m (fun ch => if (length ch =? chunk)%nat then sop_interleaved_ab m ch
+                                           else sop_naive true m ch)); auto.
+      eapply Forall_impl; [|exact Hchunks]. cbn beta. intros c [Hcl Hci].
+      pose proof (Forall_incl _ ab c Hab Hci) as Hcok.
+      destruct (length c =? chunk)%nat.
+      * apply sop_interleaved_ab_spec; auto. apply chunk_bound; auto.
+      * apply sop_naive_spec; auto.
+  - destruct (Nat.eqb_spec (length ab) 2) as [H2|Hn2].
+    + apply sop_interleaved_ab_spec; auto. apply chunk_bound; auto. lia.
+    + replace (dot m ab 0) with (dot m (concat (chunks_of (S (length ab)) chunk ab)) 0) by (rewrite Hcat; reflexivity).
+      apply (sum_chunks_spec m (sop_interleaved_single m)); auto.
+      eapply Forall_impl; [|exact Hchunks]. cbn beta. intros c [Hcl Hci].
+      pose proof (Forall_incl _ ab c Hab Hci) as Hcok.
+      apply sop_interleaved_single_spec; auto. apply chunk_bound; auto.
+Qed.
